@@ -36,7 +36,7 @@ def cases(draw, hazard):
             if draw(st.integers(0, 3)) == 0:
                 tag = draw(st.sampled_from(R.TAGS))
                 # other dollar tags inside the body are ordinary characters: only the region's own tag terminates it
-                b = b + draw(st.sampled_from(['', '', ' $$ ; ', ' $other$ ; $other$ ', ';$_$', '$1 ; $2']))
+                b = b + draw(st.sampled_from(['', '', ' $$ ; ', ' $other$ ; $other$ ', ';$_$', '$1 ; $2', ' ; $%s$ ; ' % tag.swapcase() if tag else ' ; ']))
                 new = R.dollar_body(b, tag)
             else:
                 new = R.sq_body(b)
